@@ -79,7 +79,7 @@ Section Struct.
   Hypothesis Hmix : numeric_mix f = false.
 
   Lemma M_rows_plain : M_rows f = rows_of VNone (nrows f) (map snd (tf_cols f)).
-  Proof. unfold M_rows. rewrite Hmix. reflexivity. Qed.
+  Proof. unfold M_rows, M_rows_gen. rewrite Hmix. reflexivity. Qed.
 
   Lemma rows_length : length (M_rows f) = nrows f.
   Proof. rewrite M_rows_plain. unfold rows_of. rewrite map_length, seq_length. reflexivity. Qed.
@@ -106,7 +106,7 @@ Section Struct.
   Theorem pairs1_section : M_from_pairs1 (M_to_pairs1 f) = f.
   Proof.
     destruct struct_facts as (Hnr & Hnc & Hcl & Hlen & Hk).
-    unfold M_from_pairs1, M_to_pairs1. cbv zeta.
+    unfold M_from_pairs1, M_to_pairs1, M_to_pairs1_gen. fold (M_rows f). cbv zeta.
     set (g := combine (tf_columns f)).
     assert (HL : length (tf_index f) = length (map g (M_rows f))) by (rewrite map_length, rows_length; reflexivity).
     rewrite (map_fst_combine_eq _ _ HL).
